@@ -732,7 +732,9 @@ def rules(tier):
             # C11-eb: _find_cp memo without bottom_level
             ('C11.R22', _shared_rule('c10', 'r25_cracker_plumbing')),
             # "the per-level password counts the trainer saves": one per password, under its level
-            ('C11.R23', _shared_rule('c18', 'r22_level_tally'))]
+            ('C11.R23', _shared_rule('c18', 'r22_level_tally')),
+            # C11-fb: `cur_index = 0` hoisted out of `while cur_level >= 0` in _fill_out_parse_tree
+            ('C11.R24', _shared_rule('c10', 'r27_inner_counters'))]
 
 
 META = {
